@@ -49,6 +49,52 @@ impl PartialOrd for WL {
         Some(self.cmp(o))
     }
 }
+/// the same graph with its variables spread over a 64-bit code space (order preserving): v -> v * 2^37 + 5
+const SPREAD_SHIFT: u32 = 37;
+fn spread(c: usize) -> usize {
+    let (v, pol) = (c >> 1, c & 1);
+    if v == 0 { c } else { 2 * ((v << SPREAD_SHIFT) + 5) + pol }
+}
+fn unspread(c: usize) -> usize {
+    let (v, pol) = (c >> 1, c & 1);
+    // (codes that were never spread - the constants, literals of the result - pass through)
+    if v < (1 << SPREAD_SHIFT) { c } else { 2 * ((v - 5) >> SPREAD_SHIFT) + pol }
+}
+fn to_sparse(a: &Aig<L>) -> Aig<u64> {
+    let w = |x: &L| spread(*x as usize) as u64;
+    let ws = |v: &Vec<L>| v.iter().map(w).collect::<Vec<u64>>();
+    Aig {
+        max_var_index: (a.max_var_index << SPREAD_SHIFT) + 5,
+        inputs: ws(&a.inputs),
+        latches: a.latches.iter().map(|l| Latch { state: w(&l.state), next_state: w(&l.next_state), initialization: l.initialization }).collect(),
+        outputs: ws(&a.outputs),
+        bad_state_properties: ws(&a.bad_state_properties),
+        invariant_constraints: ws(&a.invariant_constraints),
+        justice_properties: a.justice_properties.iter().map(ws).collect(),
+        fairness_constraints: ws(&a.fairness_constraints),
+        and_gates: a.and_gates.iter().map(|g| AndGate { inputs: [w(&g.inputs[0]), w(&g.inputs[1])], output: w(&g.output) }).collect(),
+        symbols: a.symbols.clone(),
+        comment: a.comment.clone(),
+    }
+}
+fn from_u64(o: OrderedAig<u64>) -> OrderedAig<L> {
+    use flussab_aiger::aig::{OrderedAndGate, OrderedLatch};
+    let ws = |v: Vec<u64>| v.into_iter().map(|x| x as L).collect::<Vec<L>>();
+    OrderedAig {
+        max_var_index: o.max_var_index,
+        input_count: o.input_count,
+        latches: o.latches.into_iter().map(|l| OrderedLatch { next_state: l.next_state as L, initialization: l.initialization }).collect(),
+        outputs: ws(o.outputs),
+        bad_state_properties: ws(o.bad_state_properties),
+        invariant_constraints: ws(o.invariant_constraints),
+        justice_properties: o.justice_properties.into_iter().map(ws).collect(),
+        fairness_constraints: ws(o.fairness_constraints),
+        and_gates: o.and_gates.into_iter().map(|g| OrderedAndGate { inputs: [g.inputs[0] as L, g.inputs[1] as L] }).collect(),
+        symbols: o.symbols,
+        comment: o.comment,
+    }
+}
+
 fn to_wl(a: &Aig<L>) -> Aig<WL> {
     let w = |x: &L| WL(*x);
     let ws = |v: &Vec<L>| v.iter().map(w).collect::<Vec<WL>>();
@@ -330,14 +376,16 @@ fn outcome_of<X: flussab_aiger::Lit>(
     maxvar: usize,
     res: Result<Result<(OrderedAig<X>, Renumber<X>), AigStructureError<X>>, String>,
     conv: impl FnOnce(OrderedAig<X>) -> OrderedAig<L>,
+    key: fn(usize) -> usize,
+    unkey: fn(usize) -> usize,
 ) -> Outcome {
     match res {
         Err(msg) => Outcome::Panic(msg),
-        Ok(Err(AigStructureError::FoundCycle { lit })) => Outcome::Cycle(lit.code() as u32),
-        Ok(Err(AigStructureError::LitNotDefined { lit })) => Outcome::Undefined(lit.code() as u32),
-        Ok(Err(AigStructureError::LitAlreadyDefined { lit })) => Outcome::Redefined(lit.code() as u32),
+        Ok(Err(AigStructureError::FoundCycle { lit })) => Outcome::Cycle(unkey(lit.code()) as u32),
+        Ok(Err(AigStructureError::LitNotDefined { lit })) => Outcome::Undefined(unkey(lit.code()) as u32),
+        Ok(Err(AigStructureError::LitAlreadyDefined { lit })) => Outcome::Redefined(unkey(lit.code()) as u32),
         Ok(Ok((ord, rn))) => {
-            let map: Vec<i64> = (0..=(2 * maxvar + 1)).map(|l| rn.lit_map().get(X::from_code(l)).map_or(-1, |x| x.code() as i64)).collect();
+            let map: Vec<i64> = (0..=(2 * maxvar + 1)).map(|l| rn.lit_map().get(X::from_code(key(l))).map_or(-1, |x| x.code() as i64)).collect();
             let left = rn.and_gates().len();
             Outcome::Done(conv(ord), map, left)
         }
@@ -369,13 +417,21 @@ fn done_record(aig: &Aig<L>, res: Outcome) -> Value {
 pub fn run_one(id: u64, aig: &Aig<L>, o: [bool; 3]) -> &'static str {
     trace::rec(aig_record(id, aig, o));
     trace::install_hooks("t");
+    fn same(c: usize) -> usize { c }
     let out = if id % 3 == 0 {
         let w = to_wl(aig);
         let res = crate::catch(|| Renumber::renumber_aig(config(o), &w));
-        outcome_of(aig.max_var_index, res, from_wl)
+        outcome_of(aig.max_var_index, res, from_wl, same, same)
+    } else if id % 3 == 1 {
+        // the same graph with literal codes of 40 and more bits (u64): renumbering only depends on the structure
+        let w = to_sparse(aig);
+        trace::TR_UNSPREAD.with(|f| f.set(Some(unspread)));
+        let res = crate::catch(|| Renumber::renumber_aig(config(o), &w));
+        trace::TR_UNSPREAD.with(|f| f.set(None));
+        outcome_of(aig.max_var_index, res, from_u64, spread, unspread)
     } else {
         let res = crate::catch(|| Renumber::renumber_aig(config(o), aig));
-        outcome_of(aig.max_var_index, res, |x| x)
+        outcome_of(aig.max_var_index, res, |x| x, same, same)
     };
     trace::uninstall_hooks();
     let kind = match &out {
